@@ -1845,16 +1845,35 @@ package desync
 
 //# bst lays a sorted list out as a complete binary search tree. e is the height: the list is empty, or has between
 //# 2^(e-1) (last level holds one node) and 2^e - 1 (perfect tree) elements; p = 2^(e-1).
+//@ ghost var $bstw int
+//# size of the left subtree of a complete binary search tree of n nodes and height e (its last level filled from the left)
+//@ spec func bstLeft(n int, e int) int = ite(n >= pow2(e-1) - 1 + pow2(e-1)/2, pow2(e-1) - 1, n - pow2(e-1)/2)
 //@ func bst
 //@   prop C13
-//@   nochecks bounds@out[i]
 //@   requires len(in) == 0 || (e >= 1 && e <= 40 && pow2(e-1) - 1 <= len(in) && len(in) <= 2*pow2(e-1) - 1)
+//@   requires len(in) == 0 || (0 <= i && (e >= 2 ==> pow2(e-2)*(i+2) - 1 <= len(out)) && len(in) - (pow2(e-1) - 1) == ite(len(out) - (pow2(e-1)*(i+1) - 1) <= 0, 0, ite(len(out) - (pow2(e-1)*(i+1) - 1) >= pow2(e-1), pow2(e-1), len(out) - (pow2(e-1)*(i+1) - 1))))
 //@   modifies mem(out)
 //# the split index is inside the list and both halves satisfy the precondition again with height e-1 (unbounded);
 //# termination: the list gets strictly shorter
 //@   assert@after:bst true
 //@   oncall bst: requires len($arg0) < len(in)
 //@   ensures true
+//# (second requires, above) the list is exactly what the subtree at index i of a complete tree of len(out) nodes holds:
+//# with p = 2^(e-1) the levels above the last are full (p-1 nodes, all below len(out)) and the last level, which starts
+//# at index p(i+1)-1, holds the len(in)-(p-1) nodes of it that lie below len(out). This makes out[i] an index inside
+//# the array for every list length (no bound) and is re-established for both halves.
+//# structure of the recursion (unbounded): the element at the split index - the size of the left subtree of a complete
+//# tree of len(in) nodes - goes to out[i], the part of the list before it to the subtree at 2i+1, the part behind it to
+//# the subtree at 2i+2, one level lower, same output array; a call stores exactly as many elements as its list holds.
+//# (That no store is overwritten later - heap indices reached by different paths differ - is not stated here; the
+//# layout as a whole stays with the bounded unit.)
+//@   requires base(in) != base(out)
+//@   ghost@elemstore:out $bstw = $bstw + 1
+//@   modifies $bstw
+//@   oncall bst#1: requires $arg0 == in[:bstLeft(len(in), e)] && $arg1 == out && $arg2 == 2*i + 1 && $arg3 == e - 1
+//@   oncall bst#2: requires $arg0 == in[bstLeft(len(in), e)+1:] && $arg1 == out && $arg2 == 2*i + 2 && $arg3 == e - 1
+//@   ensures $bstw == old($bstw) + len(in)
+//@   assert@elemstore:out $k == i && out[i] == in[bstLeft(len(in), e)]
 
 //@ func makeGoodbyeBST
 //@   prop C13
